@@ -1385,7 +1385,9 @@ class Authenticated(BaseClientHandler):
         pending EXPUNGEs before it queues up on the mailbox. If another
         client's EXPUNGE ran while it was waiting for its turn, the sequence
         numbers the client sent no longer mean the messages it meant, and we
-        can not tell it (no EXPUNGE during these commands): refuse.
+        can not tell it (no EXPUNGE during these commands): refuse. The same
+        goes for COPY and MOVE: their pending notifications were sent before
+        they queued up.
         """
         if not cmd.uid_command and self.pending_expunges():
             raise No("There are pending EXPUNGEs.")
@@ -1650,6 +1652,7 @@ class Authenticated(BaseClientHandler):
         # Wait until the mailbox gives us the go-ahead to run the command.
         #
         async with cmd.ready_and_okay(self.mbox):
+            self._no_expunges_while_waiting(cmd)
             try:
                 dest_mbox = await self.server.get_mailbox(cmd.mailbox_name)
                 src_uids, dst_uids = await self.mbox.copy(
@@ -1719,6 +1722,7 @@ class Authenticated(BaseClientHandler):
         # of mailboxes in opposite directions.
         #
         async with cmd.ready_and_okay(self.mbox):
+            self._no_expunges_while_waiting(cmd)
             try:
                 dest_mbox = await self.server.get_mailbox(cmd.mailbox_name)
                 src_uids, dst_uids = await self.mbox.copy(
